@@ -939,3 +939,250 @@ Proof.
     rewrite (bool_decide_eq_true_2 _ Hs), (bool_decide_eq_true_2 _ Htal) in Ht. discriminate. }
   repeat split; auto.
 Qed.
+
+(* ---------- funds: the recorded total is the sum of non-negative funder records, along every history of
+   non-negative contributions in which DeleteAllFunds reaches every record ---------- *)
+Definition nn (kv : N * Z) : Prop := 0 <= kv.2.
+Definition FInv (p : prec) : Prop := Forall nn (p_indiv p) /\ p_total p = asum (p_indiv p).
+Definition FundsInv (s : state) : Prop := forall id p, g_props s !! id = Some p -> FInv p.
+
+Lemma asum_aupd f d l : asum (aupd f d l) = asum l + d.
+Proof.
+  induction l as [|[k v] l IH]; simpl; [lia|]. destruct (N.eqb f k); simpl; [lia|]. unfold asum in *. simpl. lia.
+Qed.
+
+Lemma aupd_nn_add f d l : Forall nn l -> 0 <= d -> Forall nn (aupd f d l).
+Proof.
+  intros H Hd. induction l as [|[k v] l IH]; simpl.
+  - constructor; [unfold nn; simpl; lia|constructor].
+  - inversion H as [|? ? Hv Hl]; subst. destruct (N.eqb f k).
+    + constructor; [unfold nn in *; simpl in *; lia | exact Hl].
+    + constructor; [exact Hv | apply IH; exact Hl].
+Qed.
+
+Lemma aupd_nn_sub f a c l : Forall nn l -> alookup f l = Some c -> 0 <= c - a -> Forall nn (aupd f (- a) l).
+Proof.
+  intros H Hl Hc. induction l as [|[k v] l IH]; simpl in *; [discriminate|].
+  inversion H as [|? ? Hv Hr]; subst. destruct (N.eqb f k).
+  - injection Hl as ->. constructor; [unfold nn; simpl; lia | exact Hr].
+  - constructor; [exact Hv | apply IH; auto].
+Qed.
+
+Lemma alookup_le_asum f c l : Forall nn l -> alookup f l = Some c -> c <= asum l.
+Proof.
+  intros H Hl. induction l as [|[k v] l IH]; simpl in *; [discriminate|].
+  inversion H as [|? ? Hv Hr]; subst. unfold nn in Hv; simpl in Hv.
+  assert (0 <= asum l). { clear -Hr. induction Hr as [|x l Hx _ IH']; unfold asum in *; simpl; [lia|]. unfold nn in Hx. lia. }
+  destruct (N.eqb f k); unfold asum in *; simpl.
+  - injection Hl as ->. lia.
+  - specialize (IH Hr Hl). lia.
+Qed.
+
+Definition fupd (s s' : state) : Prop :=
+  g_props s' = g_props s \/
+  exists id p', g_props s' = <[id := p']> (g_props s) /\
+    match g_props s !! id with Some p => FInv p -> FInv p' | None => FInv p' end.
+
+Lemma fupd_sound s s' : fupd s s' -> FundsInv s -> FundsInv s'.
+Proof.
+  intros [Heq | (id & p' & Heq & Hm)] HI i p Hp; rewrite Heq in Hp; [eauto|].
+  destruct (decide (i = id)) as [->|Hne].
+  - rewrite lookup_insert in Hp. inversion Hp; subst.
+    destruct (g_props s !! id) as [p0|] eqn:E; [apply Hm; eauto | exact Hm].
+  - rewrite lookup_insert_ne in Hp by congruence. eauto.
+Qed.
+
+Lemma FInv_add_funds b p f a : FInv p -> 0 <= a -> FInv (add_funds b p f a).
+Proof.
+  intros [Hn Ht] Ha. unfold FInv. rewrite af_indiv, af_total, asum_aupd. split; [apply aupd_nn_add; auto | lia].
+Qed.
+
+Lemma create_fupd : forall s e id ty pr amt fdl vdl goal pass cv s' ev, 0 <= amt ->
+  h_create s e id ty pr amt fdl vdl goal pass cv = Some (s', ev) -> fupd s s'.
+Proof.
+  intros s e id ty pr amt fdl vdl goal pass cv s' ev Ha H. unfold h_create in H. cbv zeta in H.
+  repeat match type of H with (if ?c then None else _) = _ =>
+    match type of c with bool => destruct c; [discriminate|] end end.
+  destruct (g_props s !! id) eqn:E; [discriminate|].
+  destruct (bal s pr - amt <? 0); [discriminate|]. inversion H; subst; clear H.
+  right. exists id. eexists. split; [reflexivity|]. rewrite E.
+  apply FInv_add_funds; [|exact Ha]. split; [constructor | reflexivity].
+Qed.
+
+Lemma fund_fupd : forall s e id f amt s' ev, 0 <= amt -> h_fund s e id f amt = Some (s', ev) -> fupd s s'.
+Proof.
+  intros s e id f amt s' ev Ha H. unfold h_fund in H.
+  destruct (g_props s !! id) as [p|] eqn:E; [|discriminate].
+  destruct (bool_decide (p_store p = SActive)); simpl in H; [|discriminate].
+  destruct (p_fdl p <? g_h s); [discriminate|].
+  destruct (bool_decide (p_status p = StFunding)); simpl in H; [|discriminate].
+  destruct (bal s f - amt <? 0); [discriminate|]. inversion H; subst; clear H.
+  right. exists id. eexists. split; [reflexivity|]. rewrite E. intros HF.
+  apply FInv_add_funds; [|exact Ha]. destruct (p_goal p <=? amt + p_total p); exact HF.
+Qed.
+
+Lemma stage_only_fupd s s' id p p' : g_props s !! id = Some p -> g_props s' = <[id := p']> (g_props s) ->
+  p_indiv p' = p_indiv p -> p_total p' = p_total p -> fupd s s'.
+Proof.
+  intros E Heq Hi Ht. right. exists id, p'. split; [exact Heq|]. rewrite E. unfold FInv. rewrite Hi, Ht. auto.
+Qed.
+
+Lemma vote_fupd : forall s e id v o s' ev, h_vote s e id v o = Some (s', ev) -> fupd s s'.
+Proof.
+  intros s e id v o s' ev H. unfold h_vote in H.
+  destruct (g_props s !! id) as [p|] eqn:E; [|discriminate].
+  destruct (bool_decide (p_store p = SActive)); simpl in H; [|discriminate].
+  destruct (bool_decide (p_status p = StVoting)); simpl in H; [|discriminate].
+  destruct (p_vdl p <? g_h s); [discriminate|].
+  destruct (bool_decide (v ∈ e_vals e)); simpl in H; [|discriminate].
+  destruct (vote_update v o (p_votes p)) as [vs|]; [|discriminate].
+  destruct (p_snapblk p =? g_blk s); [discriminate|].
+  inversion H; subst; clear H.
+  eapply stage_only_fupd; [exact E | reflexivity | |]; destruct (tally vs _); reflexivity.
+Qed.
+
+Lemma cancel_fupd : forall s id pr s' ev, h_cancel s id pr = Some (s', ev) -> fupd s s'.
+Proof.
+  intros s id pr s' ev H. unfold h_cancel in H.
+  destruct (g_props s !! id) as [p|] eqn:E; [|discriminate].
+  destruct (bool_decide (p_store p = SActive)); simpl in H; [|discriminate].
+  destruct (bool_decide (p_status p = StFunding)); simpl in H; [|discriminate].
+  destruct (p_fdl p <? g_h s); [discriminate|].
+  destruct (N.eqb (p_proposer p) pr); simpl in H; [|discriminate].
+  inversion H; subst; clear H. eapply stage_only_fupd; [exact E | reflexivity | reflexivity | reflexivity].
+Qed.
+
+Lemma expire_fupd : forall s id s' ev, h_expire s id = Some (s', ev) -> fupd s s'.
+Proof.
+  intros s id s' ev H. unfold h_expire in H.
+  destruct (g_props s !! id) as [p|] eqn:E; [|discriminate].
+  destruct (bool_decide (p_store p = SActive)); simpl in H; [|discriminate].
+  destruct (bool_decide (p_status p = StVoting)); simpl in H; [|discriminate].
+  destruct (g_h s <=? p_vdl p); [discriminate|].
+  inversion H; subst; clear H. eapply stage_only_fupd; [exact E | reflexivity | reflexivity | reflexivity].
+Qed.
+
+Lemma withdraw_fupd : forall s id f amt ben s' ev, h_withdraw s id f amt ben = Some (s', ev) -> fupd s s'.
+Proof.
+  intros s id f amt ben s' ev H. unfold h_withdraw in H.
+  destruct (g_props s !! id) as [p|] eqn:E; [|discriminate].
+  destruct (refundable (p_outcome p)) eqn:Er.
+  - destruct (funded_visible (g_blk s) p f); [|discriminate].
+    destruct (alookup f (p_indiv p)) as [cur|] eqn:El; [|discriminate].
+    destruct (cur - amt <? 0) eqn:E1; [discriminate|]. apply Z.ltb_ge in E1.
+    destruct (p_total p - amt <? 0); [discriminate|].
+    inversion H; subst; clear H.
+    right. exists id. eexists. split; [reflexivity|]. rewrite E. intros [Hn Ht]. unfold FInv. simpl.
+    rewrite asum_aupd. split; [eapply aupd_nn_sub; eauto | lia].
+  - destruct ((p_goal p <=? p_total p) || (g_h s <=? p_fdl p)); [discriminate|].
+    cbv zeta in H. simpl in H.
+    destruct (funded_visible (g_blk s) _ f) eqn:Ef; [|discriminate].
+    unfold funded_visible in Ef. simpl in Ef.
+    destruct (alookup f (p_indiv p)) as [cur|] eqn:El; [|discriminate]. simpl in H.
+    destruct (cur - amt <? 0) eqn:E1; [discriminate|]. apply Z.ltb_ge in E1.
+    destruct (p_total p - amt <? 0); [discriminate|].
+    destruct (bool_decide (p_store p = SPassed)); inversion H; subst; clear H;
+      (right; exists id; eexists; (split; [reflexivity|]); rewrite E; intros [Hn Ht]; unfold FInv; simpl;
+       rewrite asum_aupd; split; [eapply aupd_nn_sub; eauto | lia]).
+Qed.
+
+Lemma finalize_fupd : forall s e id s' ev, e_keep e = [] -> h_finalize s e id = Some (s', ev) -> fupd s s'.
+Proof.
+  intros s e id s' ev Hk H. unfold h_finalize, fin_move in H.
+  destruct (g_props s !! id) as [p|] eqn:E; [|discriminate].
+  destruct (8 <=? p_extra p). { inversion H; subst. left. reflexivity. }
+  destruct (p_store p) eqn:Es; try discriminate;
+    try (inversion H; subst; left; reflexivity).
+  all: destruct (bool_decide (p_status p = StCompleted)) eqn:E2; simpl in H; [|discriminate].
+  all: destruct (if p_snapblk p =? g_blk s then [] else p_votes p) as [|v0 vr] eqn:Ev; [discriminate|].
+  all: destruct (tally (p_votes p) (p_pass p)); try discriminate.
+  all: try (destruct (bool_decide (p_type p = TConfig) && bool_decide (id ∈ e_cfgfail e))).
+  all: try (destruct (distribute _ e id p _) as [[s1 paid] bad] eqn:Ed; apply distribute_props in Ed).
+  all: simpl in H; inversion H; subst; clear H.
+  all: right; exists id; eexists.
+  all: (split; [ rewrite ?props_anom; simpl; rewrite ?Ed; try destruct (bool_decide (p_type p = TConfig)); reflexivity |]).
+  all: rewrite E; intros [Hn Ht]; unfold FInv;
+       rewrite ?(del_funds_indiv_nokeep _ _ _ Hk); unfold del_funds; simpl;
+       (split; [ first [constructor | exact Hn] | first [reflexivity | exact Ht] ]).
+Qed.
+
+Definition nonneg_op (t : txop) : Prop :=
+  match t_op t with
+  | OCreate _ _ _ amt _ _ _ _ _ => 0 <= amt
+  | OFund _ _ amt => 0 <= amt
+  | _ => True
+  end.
+
+Lemma run_queue_funds : forall (h : state -> N -> hres) q s,
+  (forall st id st' ev, h st id = Some (st', ev) -> fupd st st') -> FundsInv s -> FundsInv (run_queue h q s).1.
+Proof.
+  intros h q s Hh. unfold run_queue.
+  assert (G : forall q acc, FundsInv acc.1 ->
+            FundsInv (fold_left (fun acc id => match h acc.1 id with
+                                               | Some (s', ev) => (s', acc.2 ++ ev)
+                                               | None => acc end) q acc).1).
+  { induction q0 as [|id q0 IH]; intros acc Hacc; simpl; [exact Hacc|].
+    apply IH. destruct (h acc.1 id) as [[st' ev]|] eqn:Eh; [|exact Hacc].
+    simpl. eapply fupd_sound; [eapply Hh; eauto | exact Hacc]. }
+  intros HI. apply G. exact HI.
+Qed.
+
+Lemma step_funds s t : nokeep t -> nonneg_op t -> FundsInv s -> FundsInv (step s t).1.1.
+Proof.
+  intros Hk Hn HI. unfold step.
+  assert (Hc : forall r, (forall s1 ev, r = Some (s1, ev) -> fupd s s1) ->
+               FundsInv (match charge r (t_payer t) (t_fee t) with
+                         | Some (s', ev) => (s', true, ev) | None => (s, false, []) end).1.1).
+  { intros r Hr. destruct (charge r (t_payer t) (t_fee t)) as [[s' ev]|] eqn:Ec; simpl; [|exact HI].
+    apply charge_props in Ec. destruct Ec as (s1 & -> & Heq).
+    intros i p Hp. rewrite Heq in Hp. eapply (fupd_sound s s1); eauto. }
+  unfold nonneg_op in Hn. destruct (t_op t) eqn:Eo.
+  - exact HI.
+  - apply Hc. intros; eapply create_fupd; eauto.
+  - apply Hc. intros; eapply fund_fupd; eauto.
+  - apply Hc. intros; eapply vote_fupd; eauto.
+  - apply Hc. intros; eapply cancel_fupd; eauto.
+  - apply Hc. intros; eapply withdraw_fupd; eauto.
+  - destruct (h_expire s id) as [[s' ev]|] eqn:Eh; simpl; [|exact HI].
+    eapply fupd_sound; [eapply expire_fupd; eauto | exact HI].
+  - destruct (h_finalize s (t_env t) id) as [[s' ev]|] eqn:Eh; simpl; [|exact HI].
+    eapply fupd_sound; [eapply finalize_fupd; eauto | exact HI].
+  - unfold end_block.
+    destruct (run_queue h_expire (g_qexp s) s) as [s1 ev1] eqn:E1.
+    destruct (run_queue (fun st id => h_finalize st (t_env t) id) (g_qfin s) s1) as [s2 ev2] eqn:E2.
+    simpl.
+    pose proof (run_queue_funds h_expire (g_qexp s) s (fun st i st' ev H => expire_fupd st i st' ev H) HI) as Q1.
+    rewrite E1 in Q1. simpl in Q1.
+    pose proof (run_queue_funds (fun st id => h_finalize st (t_env t) id) (g_qfin s) s1
+                 (fun st i st' ev H => finalize_fupd st (t_env t) i st' ev Hk H) Q1) as Q2.
+    rewrite E2 in Q2. exact Q2.
+  - apply Hc. intros s1 ev H. inversion H; subst. left. reflexivity.
+Qed.
+
+Lemma run_funds : forall ts s, Forall nokeep ts -> Forall nonneg_op ts -> FundsInv s -> FundsInv (run s ts).1.
+Proof.
+  induction ts as [|t ts IH]; intros s Hk Hn HI; simpl; [exact HI|].
+  inversion Hk as [|? ? Hk1 Hk2]; subst. inversion Hn as [|? ? Hn1 Hn2]; subst.
+  pose proof (step_funds s t Hk1 Hn1 HI) as S1.
+  destruct (step s t) as [[s1 ok] ev]. simpl in S1.
+  specialize (IH s1 Hk2 Hn2 S1). destruct (run s1 ts) as [s2 ev2]. exact IH.
+Qed.
+
+(* "returned in full", history level: after any history of non-negative contributions in which every distribution
+   deleted every funder record, a funder of a cancelled / goal-missed proposal whose record is committed can
+   withdraw the whole record *)
+Theorem refund_in_full : forall ts id f ben p cur,
+  Forall nokeep ts -> Forall nonneg_op ts ->
+  let s := (run init ts).1 in
+  g_props s !! id = Some p -> refundable (p_outcome p) = true -> funded_visible (g_blk s) p f = true ->
+  alookup f (p_indiv p) = Some cur ->
+  0 <= cur /\ exists s', h_withdraw s id f cur ben = Some (s', [EvRefund id f ben cur]).
+Proof.
+  intros ts id f ben p cur Hk Hn s E Hr Hv Hl.
+  assert (HF : FundsInv s).
+  { apply run_funds; auto. intros i q H. unfold init in H. simpl in H. rewrite lookup_empty in H. discriminate. }
+  destruct (HF id p E) as [Hnn Ht]. split.
+  - clear -Hnn Hl. induction (p_indiv p) as [|[k v] l IH]; simpl in Hl; [discriminate|].
+    inversion Hnn as [|? ? Hv Hr]; subst. destruct (N.eqb f k); [injection Hl as <-; exact Hv | auto].
+  - eapply refund_available; eauto. rewrite Ht. eapply alookup_le_asum; eauto.
+Qed.
